@@ -131,6 +131,11 @@ fn confine_child() {
             rlim_max: 30,
         };
         libc::setrlimit(libc::RLIMIT_CPU, &lim);
+        let mem = libc::rlimit {
+            rlim_cur: 1 << 30,
+            rlim_max: 1 << 30,
+        };
+        libc::setrlimit(libc::RLIMIT_AS, &mem);
         libc::alarm(600);
     }
 }
@@ -212,6 +217,16 @@ fn run_child(git_dir: &Path, tape: &[u8]) -> Result<ChildResult, String> {
         .stderr(std::process::Stdio::piped())
         .spawn()
         .map_err(|e| format!("spawn child: {e}"))?;
+    // whatever happens below (including a panic or an early return), the child does not survive this function
+    struct KillOnDrop(u32);
+    impl Drop for KillOnDrop {
+        fn drop(&mut self) {
+            unsafe {
+                libc::kill(self.0 as libc::pid_t, libc::SIGKILL);
+            }
+        }
+    }
+    let _guard = KillOnDrop(child.id());
     let start = Instant::now();
     let mut sleep_us = 500;
     let (mut samples, mut asleep) = (0u64, 0u64);
@@ -515,6 +530,12 @@ pub fn main() {
     let args: Vec<String> = std::env::args().collect();
     if args.len() == 4 && args[1] == "--c17-child" {
         child_main(&args[2], &args[3]);
+    }
+    if args.iter().any(|a| a == "--worker") {
+        // workers die with the runner (and their children with them)
+        unsafe {
+            libc::prctl(libc::PR_SET_PDEATHSIG, libc::SIGKILL as libc::c_ulong);
+        }
     }
     let mut ck = Check::new("C17", "exploration");
     ck.rule("One C16-style transaction (1..4 edits, deref, all expectations, all PackedRefs modes) on a generated pre-state (loose/packed/both, symbolic chains, HEAD symbolic or detached) while a generated subset of `<ref>.lock` files of every ref the transaction touches incl. referents reached by dereferencing, and packed-refs.lock, are held by a foreign party; Fail::Immediately or back-off 1..50 ms per lock class. Non-trivial: the lock of a referent of a dereferenced symbolic edit is held. Distinct by hash of the decoded scenario.");
